@@ -123,6 +123,24 @@ def sensitivity(props, seed, only=None):
                 if not caught:
                     print(p.stdout[-1500:], p.stderr[-1500:])
                     rc = 1
+                else:
+                    # the replay file must reproduce the violation in a fresh process on the changed tree,
+                    # and must not on the unchanged tree
+                    rf = [l.split("replay=")[1].strip() for l in p.stdout.splitlines() if l.startswith("VIOLATION property=")][0]
+                    r1 = subprocess.run([os.path.join(kernel.VERIF_DIR, "verif"), prop, "--replay", rf], env=env,
+                                        capture_output=True, text=True, timeout=1800)
+                    env2 = dict(env)
+                    env2["VERIF_REPO"] = kernel.REPO
+                    r2 = subprocess.run([os.path.join(kernel.VERIF_DIR, "verif"), prop, "--replay", rf], env=env2,
+                                        capture_output=True, text=True, timeout=1800)
+                    ok1 = r1.returncode == 1 and "VIOLATION property=" + prop in r1.stdout
+                    ok2 = r2.returncode == 0 and "VIOLATION" not in r2.stdout
+                    print(f"    replay on changed tree: {'reproduces' if ok1 else 'DOES NOT REPRODUCE rc=%d' % r1.returncode}; "
+                          f"on unchanged tree: {'clean' if ok2 else 'NOT CLEAN rc=%d' % r2.returncode}")
+                    if not ok1:
+                        print(r1.stdout[-800:], r1.stderr[-800:])
+                    if not (ok1 and ok2):
+                        rc = 1
                 report.append({"property": prop, "mutant": os.path.relpath(m, kernel.VERIF_DIR), "caught": caught,
                                "clause": line[0] if line else None})
             finally:
